@@ -23,6 +23,58 @@ def app(prop, theorems, explanation, assumptions, facts=None):
 
 
 PROPS = {
+    "C15": {
+        "module": "Shutter.Properties.C15",
+        "theorems": ["C15_exact", "C15_atomic", "C15_domain_canonical", "C15_domain_fork", "sync_inv", "reach_inv", "C15_sql_pinned"],
+        "driver": {"pkg": "./cmd/synccheck", "args": ["-prop", "C15"]},
+        "facts": ["sql"],
+        "trusted_base": [KERNEL, CORR,
+                         "syncrig: the real RegistrySyncer, SequencerSyncer and MultiEventSyncer (exported fields, real contract "
+                         "bindings) over fakechain (in-process eth JSON-RPC over a block tree) and pgfake + kdb; RPC errors and database "
+                         "failures / connection drops are injected per call / statement",
+                         "the model abstracts rows to (key, block, payload) and blocks to (hash, parent hash, admissible events); "
+                         "admissibility rules (eon <= MaxInt64, valid definition, gas limit fits int64) are applied by the rig's own "
+                         "decoder, not by the model",
+                         "hypotheses of C15_exact: a contract emits a primary key once per chain (Uniq); a hash identifies a block "
+                         "and its ancestry (hcoh)"],
+        "explanation": "Theorems (Lean): for every reachable state of the syncer model - any sequence of heads (repeats, gaps, older "
+                       "blocks, forks) and any failures cutting a call short after a whole number of ranges, provided every call that "
+                       "stores something reads a chain with the same blocks as the one read before from the first block up to its "
+                       "resume point - whenever the stored position lies on the canonical chain the rows are exactly that chain's "
+                       "admissible events from the first synced block to the position (C15_exact, by the invariant sync_inv / "
+                       "reach_inv); the position moves only together with the rows (C15_atomic); the property's domain (position "
+                       "canonical, or new head one past it on a fork no deeper than the assumed depth, also when the reset is clamped to "
+                       "the sync start) provides that proviso (C15_domain_canonical, C15_domain_fork). The three real syncers run over "
+                       "random block trees with forks of every depth up to 6, re-registration of a key on the other fork, heads with "
+                       "gaps/repeats/steps back, one RPC or DB fault per scenario step with a clean retry; after every step the stored "
+                       "rows are compared with the canonical chain's and with the model's.",
+        "assumptions": ["forks deeper than the assumed reorg depth, and a first new head more than one past the synced block, are outside "
+                        "the property's domain and are not generated",
+                        "open known finding reorg-missed-when-head-skips-position+1 (inside the domain as stated)",
+                        "the validator registry syncer is not one of the three syncers of the property; syncrig's self-test shows it "
+                        "has no reorg handling at all (recorded in DESIGN.md, not judged here)"],
+    },
+    "C16": {
+        "module": "Shutter.Properties.C16",
+        "theorems": ["C16_batching", "C16_once_and_in_time", "stepRange_outcome", "range_eq_blockwise", "C16_sql_pinned"],
+        "driver": {"pkg": "./cmd/synccheck", "args": ["-prop", "C16"]},
+        "facts": ["sql"],
+        "trusted_base": [KERNEL, CORR,
+                         "syncrig: the real MultiEventSyncer with the real registration and trigger processors over fakechain and "
+                         "pgfake + kdb; trigger definitions are built with the repo's encoder and matched by the rig's own decoder "
+                         "for the expected outcome (C17 is the theorem about matching)",
+                         "the model reduces matching to equality of a topic id"],
+        "explanation": "Theorems (Lean): for every state with its primary key and every partition of the processed blocks into "
+                       "ranges in which only the last block registers triggers (what limitRange guarantees) - any sizes, any number "
+                       "of ranges - the registrations and the fired row of every trigger are the same as when every block is "
+                       "processed on its own (C16_batching, via the closed form stepRange_outcome); a fired row is never replaced and "
+                       "a new one is a matching log of a registration stored before the range, in a block not after the expiry "
+                       "(C16_once_and_in_time). The real syncer runs over random trees with matching logs in the registration block, "
+                       "the next block, at and after expiry and on both sides of forks, with range limits 1/2/3/5/100 and faults; the "
+                       "fired rows are compared after every step with the block-by-block outcome computed by the rig, at the end with "
+                       "a second keyper that batches differently, and with the model.",
+        "assumptions": ["decrypted flags are not set during these runs (the interaction with key release is C02)"],
+    },
     "C03": {
         "module": "Shutter.Properties.C03",
         "theorems": ["C03_only_correct", "C03_complete", "C03_keys_delivered", "C03_agree"],
